@@ -1,41 +1,45 @@
 ------------------------------ MODULE ArgList_MC ------------------------------
-(* The eager rule book alone: every list reachable by the bounded operation   *)
-(* space satisfies the three laws of the statement for every further batch.   *)
+(* The eager rule book alone: for every list L over the argument table (any    *)
+(* list can be built with the constructor / the direct operations, duplicates  *)
+(* included), every batch b, and every chain of up to MaxDepth further `+=`,    *)
+(* the three laws of the statement hold for `L += b`.                           *)
 EXTENDS ArgListSpace
-VARIABLES objs, ret, depth
-vars == <<objs, ret, depth>>
+CONSTANT MaxList
+VARIABLES L, b, depth
+vars == <<L, b, depth>>
 
-Init == objs = << <<>> >> /\ ret = <<>> /\ depth = 0
+Table == { AlphaSeq[i] : i \in ArgSel }
+Init == L \in SeqsOver(Table, MaxList) /\ b \in Batches /\ depth = 0
 Next == /\ depth < MaxDepth
-        /\ \E op \in Ops(Len(objs)) :
-              LET r == Step(objs, op, Gnu) IN objs' = r.objs /\ ret' = r.ret
+        /\ L' = Iadd(L, b)
+        /\ b' \in Batches
         /\ depth' = depth + 1
 Spec == Init /\ [][Next]_vars
 
-LawBatches == SeqsOver({ AlphaSeq[i] : i \in ArgSel }, MaxBatch + 1)
-
-InvNothingInventedOrLost == \A o \in 1..Len(objs) : \A b \in LawBatches : NothingInventedOrLost(objs[o], b)
-InvNoDedupOrderAndMultiplicityKept ==
-    \A o \in 1..Len(objs) : \A b \in LawBatches : NoDedupOrderAndMultiplicityKept(objs[o], b)
-InvLaterSettingWins == \A o \in 1..Len(objs) : \A b \in LawBatches : LaterSettingWins(objs[o], b)
-\* adding the same batch twice changes nothing more (the override/once-only rules are idempotent
-\* on the arguments they apply to): after `+= b; += b` every de-dupable member of b occurs once
-InvReaddIsIdempotentOnDedupable ==
-    \A o \in 1..Len(objs) : \A b \in Batches :
-        LET R == Iadd(Iadd(objs[o], b), b) IN
-        \A a \in Elems(b) : (IsOver(a) => Count(R, a) = 1)
-                            /\ (IsUniq(a) => Count(R, a) = (IF Count(objs[o], a) = 0 THEN 1 ELSE Count(objs[o], a)))
-\* to_native only ever adds one start and one end marker around all libraries and removes only
-\* default system directories
+InvNothingInventedOrLost == NothingInventedOrLost(L, b)
+InvNoDedupOrderAndMultiplicityKept == NoDedupOrderAndMultiplicityKept(L, b)
+InvLaterSettingWins == LaterSettingWins(L, b)
+\* adding the same batch again neither adds nor removes anything for the arguments the rules apply
+\* to, and a third time changes nothing at all
+InvReaddIdempotent ==
+    LET R1 == Iadd(L, b)
+        R2 == Iadd(R1, b)
+        dedupable(a) == a.d # "none"
+    IN \/ \E a \in Elems(b) : ~ dedupable(a)
+       \/ (/\ \A a \in Elems(R1) \cup Elems(R2) : Count(R2, a) = Count(R1, a)
+           /\ Iadd(R2, b) = R2)
+\* the direct operations add exactly what they are given, at the end, unless it is an absolute path
+InvDirectIsPlainAppend ==
+    (\A a \in Elems(b) : a.ab = 0) => ExtendDirect(L, b) = L \o b
+\* to_native adds at most one start/end marker pair enclosing every library and removes only
+\* -isystem of default directories
 InvNativeShape ==
-    \A o \in 1..Len(objs) :
-        LET L == objs[o]
-            N == NativeOf(L, Gnu)
-            plain(a) == a.m = 0
-            nosys(a) == a.s = 0
-        IN /\ SelectSeq(SelectSeq(N, plain), nosys) = SelectSeq(L, nosys)
-           /\ Count(N, StartGroup) = Count(N, EndGroup) /\ Count(N, StartGroup) <= 1
-           /\ (Count(N, StartGroup) = 1 =>
-                 \A i \in 1..Len(N) : N[i].g = 1 => Pos(N, StartGroup) < i /\ i < Pos(N, EndGroup))
-TypeOK == Len(objs) \in 1..MaxObjs /\ depth \in 0..MaxDepth
+    LET N == NativeOf(L, Gnu)
+        plain(a) == a.m = 0
+        nosys(a) == a.s = 0
+    IN /\ SelectSeq(SelectSeq(N, plain), nosys) = SelectSeq(L, nosys)
+       /\ Count(N, StartGroup) = Count(N, EndGroup) /\ Count(N, StartGroup) <= 1
+       /\ (Count(N, StartGroup) = 1 =>
+             \A i \in 1..Len(N) : N[i].g = 1 => Pos(N, StartGroup) < i /\ i < Pos(N, EndGroup))
+       /\ (Cardinality({ i \in 1..Len(L) : L[i].g = 1 }) >= 2 /\ Gnu) => Count(N, StartGroup) = 1
 =============================================================================
